@@ -126,6 +126,12 @@ static inline struct FieldOperatorPart *FieldOperator_getPartFromRightIndex(stru
 typedef struct AdjView { SparseM *src; } AdjView;
 #define SparseCM_adjoint(m) (*(AdjView[1]){ { (m) } })
 #define SparseRM_adjoint(m) (*(AdjView[1]){ { (m) } })
+/* transpose(): the view with the storage order swapped and NO conjugation.  MelemType of the extracted (default) build is
+ * real (types_common.inc: MelemType => double), where Eigen's adjoint() is literally transpose() (AdjointReturnType =
+ * Transpose<const Derived> for non-complex scalars, Eigen/src/SparseCore/SparseMatrixBase.h), so both are the same view here.
+ * A complex build would need a conjugation flag in AdjView; that build is not the one under contract. */
+#define SparseCM_transpose(m) (*(AdjView[1]){ { (m) } })
+#define SparseRM_transpose(m) (*(AdjView[1]){ { (m) } })
 static inline void sparse_take_adjoint(SparseM *dst, SparseM *src)
 { /* ASSUMED (Eigen, real scalars): adjoint of compressed {Col,Row}Major stored {Row,Col}Major = the same arrays */
   dst->outerSize = src->outerSize; dst->innerSize = src->innerSize; dst->nnz = src->nnz;
